@@ -100,4 +100,41 @@ PROPS['C12'] = {
     'partial': 'getting_closer_shortest_path: the theorem reduces it to the model BFS; BFS = graph distance is not proved (correspondence + independent BFS oracle only). Wiring of (s, a, s\') inside functional_step is proved in C01/C04.',
 }
 
+OBSM = 'harness.corr_obs'
+OBS_QUICK = [(OBSM, 'fam_obs_random', 8000, 16), (OBSM, 'fam_obs_smallscope', 6000, 16), (CORE, 'fam_geometry', 1600, 16)]
+OBS_THOROUGH = [(OBSM, 'fam_obs_random', 400000, 16), (OBSM, 'fam_obs_smallscope', 0, 16), (CORE, 'fam_geometry', 16000, 16)]
+
+PROPS['C05'] = {
+    'targets': ['GridVerse.Props.C05'],
+    'theorem_files': [('GridVerse/Props/C05.lean', 'C05_')] + AG('Orient', 'GridRot'),
+    'audit_prefix': 'C05_',
+    'families': {'quick': OBS_QUICK, 'thorough': OBS_THOROUGH},
+    'trusted_base': ['slice/rotate/mask pipeline modelled by hand (Model/Visibility.lean), tied by correspondence on all grids <= 3x3 x poses x areas in [-2,2]^2 (sampled in quick) and random larger cases'],
+    'assumptions': ['view areas are well-formed (Area.__post_init__ raises otherwise)'],
+}
+
+PROPS['C07'] = {
+    'targets': ['GridVerse.Props.C07'],
+    'theorem_files': [('GridVerse/Props/C07.lean', 'C07_')] + AG('Orient', 'GridRot'),
+    'audit_prefix': 'C07_',
+    'families': {'quick': OBS_QUICK, 'thorough': OBS_THOROUGH},
+    'trusted_base': ['as C05; the rotated world uses the library grid product, whose four rotation functions are classified by the extractor (agree_gridRot)'],
+    'assumptions': ['view areas are well-formed'],
+}
+
+PROPS['C06'] = {
+    'targets': ['GridVerse.Props.C06'],
+    'theorem_files': [('GridVerse/Props/C06.lean', 'C06_')] + AG('Objects'),
+    'audit_prefix': 'C06_',
+    'families': {
+        'quick': [(OBSM, 'fam_obs_random', 8000, 16), (OBSM, 'fam_vis_patterns', 0, 16), (OBSM, 'fam_obs_smallscope', 3000, 16)],
+        'thorough': [(OBSM, 'fam_obs_random', 400000, 16), (OBSM, 'fam_vis_patterns', 0, 16), (OBSM, 'fam_obs_smallscope', 0, 16)],
+    },
+    'trusted_base': [
+        'IEEE division facts flDivOK (0/d = 0, n/n = 1, 0 < n/d < 1 for 0 < n < d, nan_to_num(0/0) = 0): checked by the driver on the actual quotients the harness sends',
+        'the ray fan is an input of the model (the code computes it with libm); theorems hold for every fan; C19 validates the fan',
+    ],
+    'assumptions': ['the uniform draws of numpy lie in [0, 1) and are multiples of 2^-53'],
+}
+
 NOT_CLAIMED = {}
